@@ -112,7 +112,16 @@ def run_impl(c):
     qm = p.query(dict((un[u], cn[v]) for u, v in c["m"]))
     qi = p.query(np.array(x, dtype=int), dtype=int)
     assert np.issubdtype(qi.dtype, np.integer)
-    return {"data": p.data.tolist(), "q_arr": qa.tolist(), "q_list": np.asarray(ql).tolist(),
+    # malformed stream (outside the property's quantifier: recorded in the evidence, never a verdict): assignments of the wrong
+    # length or dimension are rejected by the code the model's guard `length x = n` stands for
+    malformed = {}
+    for name, bad in (("too_long", list(x) + [0]), ("too_short", list(x)[:-1]), ("two_dim", [list(x)])):
+        try:
+            p.query(np.array(bad, dtype=int))
+            malformed[name] = "accepted"
+        except Exception as e:  # noqa
+            malformed[name] = type(e).__name__
+    return {"malformed": malformed, "data": p.data.tolist(), "q_arr": qa.tolist(), "q_list": np.asarray(ql).tolist(),
             "q_map": np.asarray(qm).tolist(), "q_int": qi.ravel().tolist()}
 
 
@@ -139,7 +148,9 @@ def distribution(cases, outs):
                  any(cell[0] == -1 for row in o["data"] for conj in row for cell in conj))
     exc = Counter(o["exc"] for o in outs if isinstance(o, dict) and "exc" in o)
     return {"rows": dict(sorted(rows.items())), "widths_DxC": {"%dx%d" % k: v for k, v in sorted(widths.items())},
-            "cases_with_padding": padded, "exceptions": dict(exc)}
+            "cases_with_padding": padded, "exceptions": dict(exc),
+            "malformed_assignments (wrong length / dimension; not a verdict)":
+                dict(Counter("%s:%s" % kv for o in outs if isinstance(o, dict) for kv in o.get("malformed", {}).items()))}
 
 
 def shrink(c):
@@ -170,6 +181,14 @@ def shrink(c):
         d = dict(c)
         d["m"] = c["m"][:i] + c["m"][i + 1:]
         yield d
+
+# functions of the implementation this property is anchored in: their line coverage under the correspondence cases is
+# measured on the staged copy and reported in the evidence (implementation_line_coverage)
+ANCHORS = [
+    "datascope/utility/provenance.py:Provenance.query",
+    "datascope/utility/provenance.py:Provenance.__init__",
+    "datascope/utility/provenance.py:_pad_array",
+]
 
 MANIFEST = {
     "text": "Proof: Coq theorems C05_query_correct / C05_query_padded / C05_rows_independent / C05_int_output / "
